@@ -3,6 +3,7 @@ package props
 import (
 	"fmt"
 	"reflect"
+	"regexp"
 	"strings"
 
 	"github.com/expr-lang/expr"
@@ -43,16 +44,26 @@ type c18ExprCase struct {
 }
 
 var c18Cfgs = []map[string]string{
-	{"n1": "1", "n2": "2", "s": "a"},
-	{"n1": "5", "n2": "3", "s": "b"},
-	{"n1": "1", "n2": "0", "s": "a"},
+	{"n1": "1", "n2": "2", "s": "a", "k": "1"},
+	{"n1": "5", "n2": "3", "s": "b", "k": "2"},
+	{"n1": "1", "n2": "0", "s": "a", "k": "2"},
 }
 
+var c18Default = regexp.MustCompile(`\$\{zz:([^${}]*)\}`)
+
+// c18Subst substitutes innermost placeholders first, until nothing changes (key zz is absent:
+// its default is taken).
 func c18Subst(e string, cfg map[string]string) string {
-	for k, v := range cfg {
-		e = strings.ReplaceAll(e, "${"+k+"}", v)
+	for {
+		before := e
+		for k, v := range cfg {
+			e = strings.ReplaceAll(e, "${"+k+"}", v)
+		}
+		e = c18Default.ReplaceAllString(e, "$1")
+		if e == before {
+			return e
+		}
 	}
-	return strings.ReplaceAll(e, "${zz:3}", "3")
 }
 
 func c18Exprs(thorough bool) (ints, bools, strs []string) {
@@ -99,10 +110,18 @@ func c18Exprs(thorough bool) (ints, bools, strs []string) {
 	for i := 0; i+1 < nb && i < 200; i += 2 {
 		bools = append(bools, "("+bools[i]+")&&("+bools[i+1]+")", "("+bools[i]+")||("+bools[i+1]+")", "!("+bools[i]+")")
 	}
+	// placeholders nested in a placeholder's key or default, inside an expression
+	for _, nl := range []string{"${n${k}}", "${zz:${n1}}", "${n${zz:1}}", "${zz:${n${k}}}"} {
+		ints = append(ints, nl, "("+nl+"+1)", "("+nl+"*${n2})", "(${n1}-"+nl+")", "("+nl+"+"+nl+")")
+		bools = append(bools, nl+">=2", nl+"==${n1}")
+	}
 	bools = append(bools, "'${s}' in ['a','b']", "'${s}' in ['b']", "'hello' contains '${s}'", "'h'+'${s}' contains 'ha'", "${n1} in [1,2]", "'${s}'=='a'")
 	strs = []string{"'a'+'b'", "'${s}'+'b'", "1>2?'x':'y'", "${n1}<${n2}?'lt':'ge'", "'${s}' in ['a','b']?'in':'out'", "'${s}'+'${s}'", "(${n1}+${n2})>2?'${s}':'z'"}
 	for _, a := range ints[:6+lim] {
 		strs = append(strs, a+">2?'big':'small'")
+	}
+	for _, nl := range []string{"${n${k}}", "${zz:${n1}}", "${n${zz:1}}", "${zz:${n${k}}}"} {
+		strs = append(strs, nl+">1?'big':'small'", "'v'+'"+nl+"'")
 	}
 	return
 }
@@ -146,7 +165,7 @@ func c18Expr(c *core.Ctx) {
 func c18ExprOne(c *core.Ctx, cs c18ExprCase, types map[string]reflect.Type) {
 	{
 		cfg := c18Cfgs[cs.Cfg]
-		doc := fmt.Sprintf("n1: %s\nn2: %s\ns: %s\n", cfg["n1"], cfg["n2"], cfg["s"])
+		doc := fmt.Sprintf("n1: %s\nn2: %s\ns: %s\nk: %s\n", cfg["n1"], cfg["n2"], cfg["s"], cfg["k"])
 		st := reflect.StructOf([]reflect.StructField{{Name: "X", Type: types[cs.Typ], Tag: reflect.StructTag(fmt.Sprintf(`value:"#{%s}"`, cs.Expr))}})
 		h := reflect.New(st)
 		o := scen.Start(scen.StartSpec{Ch: envx.Fixed("", nil), Comps: []any{h.Interface()}, Opts: []app.SettingOption{app.SetConfigLoader(loader.NewRawLoader([]byte(doc)))}})
@@ -159,7 +178,7 @@ func c18ExprOne(c *core.Ctx, cs c18ExprCase, types map[string]reflect.Type) {
 			c.S.Nontrivial++
 		}
 		key := "C18/expr/" + core.Hash(cs)
-		desc := fmt.Sprintf("value:\"#{%s}\" on a %s field with n1=%s n2=%s s=%s", cs.Expr, cs.Typ, cfg["n1"], cfg["n2"], cfg["s"])
+		desc := fmt.Sprintf("value:\"#{%s}\" on a %s field with n1=%s n2=%s s=%s k=%s", cs.Expr, cs.Typ, cfg["n1"], cfg["n2"], cfg["s"], cfg["k"])
 		got := h.Elem().Field(0).Interface()
 		switch {
 		case o.Panic != "" || o.Abort != "":
